@@ -32,6 +32,10 @@ def _build_parse_stack(
     if append_middleware is None:
         return list(parse_stack)
 
+    # The iterables are read twice below; an iterator would be exhausted after the first time.
+    parse_stack = list(parse_stack)
+    append_middleware = list(append_middleware)
+
     parse_stack_types = [type(m) for m in parse_stack]
     append_stack_types = {type(m) for m in append_middleware}
     stack_types_intersect = set(parse_stack_types).intersection(append_stack_types)
@@ -61,6 +65,10 @@ def _build_unparse_stack(
 
     if prepend_middleware is None:
         return list(unparse_stack)
+
+    # The iterables are read twice below; an iterator would be exhausted after the first time.
+    unparse_stack = list(unparse_stack)
+    prepend_middleware = list(prepend_middleware)
 
     parse_stack_types = [type(m) for m in unparse_stack]
     append_stack_types = {type(m) for m in prepend_middleware}
